@@ -234,7 +234,10 @@ pub fn gen_val(rng: &mut Rng) -> Val {
         8 if rng.chance(1, 25) => Val::Str(p.long_ascii[rng.usize(12)]),
         9 if rng.chance(1, 25) => {
             let e = scpi::error::Error::custom(*rng.pick(&[-365i16, 77, 1, -1]), p.long_ascii[rng.usize(12)]);
-            Val::Err(match rng.usize(3) {
+            Val::Err(match rng.usize(4) {
+                // device-dependent info with bytes beyond ASCII (whatever the library makes of it, it does so without panicking
+                // and the same way into every formatter)
+                3 => e.extended(*rng.pick(&[&b"85 \xb0C"[..], b"\xc3\xa9chec", b"\xff"])),
                 0 => e,
                 1 => e.extended(*rng.pick(&p.ascii)),
                 _ => e.extended(p.long_ascii[rng.usize(12)]),
@@ -260,4 +263,4 @@ pub fn gen_val(rng: &mut Rng) -> Val {
     }
 }
 
-pub const RESP_HEADERS: &[&[u8]] = &[b"VOLT", b"FREQ", b"A", b"CHAN2", b"SENSe"];
+pub const RESP_HEADERS: &[&[u8]] = &[b"VOLT", b"FREQ", b"A", b"CHAN2", b"SENSe", b"MEASUREMENT", b"CONFIGURE12", b"B"];
